@@ -221,7 +221,7 @@ impl Drop for Node {
         if sc.op != "none" && !sc.op.is_empty() {
             let op = Op { op: script_to_op(&sc.op).to_string(), a: sc.x, b: sc.y, d: Script::default() };
             // scripted call from inside the destructor; the owner of stored handles is `id`
-            let op = if sc.op == "UpgradeStored" || sc.op == "CloneStored" || sc.op == "DropStored" || sc.op == "Take" {
+            let op = if sc.op == "UpgradeStored" || sc.op == "CloneStored" || sc.op == "DropStored" || sc.op == "Take" || sc.op == "DowngradeStored" || sc.op == "IncStrongStored" {
                 Op { a: id, b: sc.x, ..op }
             } else {
                 op
@@ -838,6 +838,46 @@ fn exec(w: &mut World, op: &Op, in_dtor_of: Option<&Node>, dry: bool) -> Option<
             }
             let h = lib(|| unsafe { Rc::clone(&*p) });
             w.roots[b as usize].push(h);
+            Some("ok".into())
+        }
+        "DowngradeStored" | "IncStrongStored" => {
+            // through a handle stored in a's value (owner may be inside its own destructor)
+            if !made(w, a) || !made(w, b) {
+                return None;
+            }
+            let n: &Node = match in_dtor_of {
+                Some(n) if n.id == a => n,
+                _ => {
+                    if !intact(w, a) {
+                        return None;
+                    }
+                    node(w, a)
+                }
+            };
+            let p = {
+                let v = n.strong.borrow();
+                let sh = v.iter().find(|e| e.target == b)?;
+                &*sh.h as *const Rc<Node>
+            };
+            go!();
+            if is_freed(w.objs[b as usize].addr) {
+                push_ub(w, "uaf", b);
+                return Some("uaf".into());
+            }
+            if op.op == "DowngradeStored" {
+                let wk = lib(|| unsafe { Rc::downgrade(&*p) });
+                w.wroots[b as usize].push(wk);
+            } else {
+                if let Some(r) = clone_guard(w, b) {
+                    return Some(r);
+                }
+                let raw = lib(|| unsafe {
+                    let q = Rc::as_ptr(&*p);
+                    Rc::increment_strong_count(q);
+                    q
+                });
+                w.raws[b as usize].push(raw);
+            }
             Some("ok".into())
         }
         "DropRoot" => {
@@ -1598,8 +1638,8 @@ fn drive_script(rng: &mut SmallRng, len: usize, nobj: u32, profile: &str, script
             // destructor script from the profile's menu; targets may be objects created later
             let menu: &[&str] = match profile {
                 "dtor10" => &["CloneRoot", "DropRoot", "Downgrade", "WeakDrop", "UpgradeWeak", "UpgradeStored", "Adopt", "Unadopt", "Take"],
-                "dtor16" => &["CloneStored", "DropStored"],
-                "dtor05" => &["UpgradeWeak", "UpgradeStored"],
+                "dtor16" => &["CloneStored", "DropStored", "IncStrongStored"],
+                "dtor05" => &["UpgradeWeak", "UpgradeStored", "DowngradeStored"],
                 "panic" | "cpanic" => &["Panic"],
                 _ => &[],
             };
